@@ -20,6 +20,8 @@ Coverage (clause of the property -> kinds / calls):
   later in-place edits on either side ......... act "edit" through any handle incl. views; nested info values
   instance state beyond the data ............... sample sets resolved from a future with wait_id() (cached problem id; every other
                                                 instance attribute and wait_id() are compared before / after every copy-producing call)
+  structured scenarios (round 6) ............... kind "direct": concatenate over inputs without rows, copies of range-labelled models whose
+                                                two sides later acquire non-index labels, one deepcopy / pickle over a model and its views
 Not reached: CQM / QM pickling (not claimed by the property), DQM with shared case labels, SampleSet builders on future-backed sets."""
 import copy
 import json
@@ -52,6 +54,9 @@ def gen_case(rng, tier):
         c = w_c14.gen_alias(rng, tier)
         c["kind"] = "ssalias"
         return c
+    if rng.random() < 0.14:
+        # structured scenarios decided in the worker with exact values (round-6 misses C19 r6m1-3), see run_direct
+        return {"kind": "direct", "what": rng.choice(['concat_empty', 'range_copy', 'range_copy', 'box']), "seed": rng.randint(0, 10 ** 9)}
     kind = rng.choice(['bqm64', 'bqm64', 'bqm32', 'bqmobj', 'qm', 'cqm', 'cqm', 'ss', 'ss', 'ss', 'vars', 'poly', 'dqm'])
     n = rng.randint(2, 7) if tier == 'quick' else rng.randint(2, 14)
     return {"kind": kind, "seed": rng.randint(0, 10 ** 9), "steps": [rng.randint(0, 10 ** 9) for _ in range(n)]}
@@ -550,7 +555,157 @@ class Handle:
         self.obj, self.kind, self.parent, self.w, self.via = obj, kind, parent, w, via
 
 
+def _ss_snap(ss):
+    r = ss.record
+    return (list(ss.variables), ss.vartype.name, r.sample.tolist(), r.energy.tolist(), r.num_occurrences.tolist(),
+            json.dumps(ss.info, sort_keys=True, default=str))
+
+
+def run_direct(c):
+    """three structured scenarios, decided here with exact values:
+    concat_empty - dimod.concatenate over inputs some of which have NO rows (stack_arrays returns its only non-empty argument
+                   unchanged when the others are dropped): the result is edited in place, every input must stay as it was;
+    range_copy   - a model / Variables labelled 0..n-1 and a copy of it (every copy-producing route); afterwards BOTH sides
+                   acquire labels that are not their own index (a copy that shares the index->label table only shows then);
+    box          - one copy.deepcopy / pickle over a container holding a model together with its .spin / .binary views."""
+    rng = wlib.Rng(c["seed"])
+    what = c["what"]
+    feats = {"kind": "direct", "what": what}
+    fail = None
+    if what == 'concat_empty':
+        n = rng.randint(1, 4)
+        labels = rng.sample(['a', 'b', 'c', 0, 1, ('t', 1)], n)
+        vt = rng.choice(['SPIN', 'BINARY'])
+        vals = [-1, 1] if vt == 'SPIN' else [0, 1]
+        k = rng.randint(2, 4)
+        full = rng.randrange(k)
+        sets = []
+        for i in range(k):
+            rows = rng.randint(1, 3) if (i == full or rng.random() < 0.3) else 0
+            arr = np.array([[rng.choice(vals) for _ in labels] for _ in range(rows)], dtype=np.int8).reshape(rows, n)
+            sets.append(dimod.SampleSet.from_samples((arr, list(labels)), vartype=vt, energy=[float(rng.randint(-3, 3)) for _ in range(rows)],
+                                                     info={"k": [i]}))
+        feats["empties"] = sum(1 for x in sets if len(x) == 0)
+        before = [_ss_snap(x) for x in sets]
+        res = dimod.concatenate(sets if rng.random() < 0.5 else tuple(sets))
+        if any(len(x) and np.shares_memory(res.record, x.record) for x in sets):
+            fail = "concatenate returned a record sharing memory with an input"
+        if len(res):
+            res.record.sample[:] = -res.record.sample if vt == 'SPIN' else 1 - res.record.sample
+            res.record.energy[:] = res.record.energy + 7
+            res.record.num_occurrences[:] = 5
+        res.change_vartype('BINARY' if vt == 'SPIN' else 'SPIN', inplace=True)
+        res.relabel_variables({labels[0]: 'zz'}, inplace=True)
+        if [_ss_snap(x) for x in sets] != before:
+            fail = fail or "editing the result of concatenate in place changed one of its inputs"
+        return {"coq": None, "py_fail": fail, "features": feats, "nontrivial": True}
+    if what == 'range_copy':
+        n = rng.randint(2, 5)
+        cls = rng.choice(['bqm64', 'bqm32', 'bqmobj', 'qm', 'cqm', 'vars', 'dqm'])
+        route = rng.choice(['copy', 'copy.copy', 'deepcopy', 'pickle', 'ctor', 'relabel_copy'])
+        feats.update({"cls": cls, "route": route})
+        if cls.startswith('bqm'):
+            m = dimod.BinaryQuadraticModel(rng.choice(['SPIN', 'BINARY']), dtype={'bqm64': np.float64, 'bqm32': np.float32, 'bqmobj': object}[cls])
+            for i in range(n):
+                m.add_variable(i, float(rng.randint(-2, 2)))
+            m.add_quadratic(0, 1, 1.0)
+        elif cls == 'qm':
+            m = dimod.QuadraticModel()
+            for i in range(n):
+                m.add_variable(rng.choice(['BINARY', 'SPIN', 'INTEGER']), i)
+            m.add_quadratic(0, 1, 1.0)
+        elif cls == 'cqm':
+            m = dimod.ConstrainedQuadraticModel()
+            for i in range(n):
+                m.add_variable('BINARY', i)
+            m.set_objective(dimod.Binary(0) + 2 * dimod.Binary(1))
+            m.add_constraint(dimod.Binary(0) + dimod.Binary(n - 1) <= 1, label='c')
+        elif cls == 'dqm':
+            m = dimod.DiscreteQuadraticModel()
+            for i in range(n):
+                m.add_variable(2, i)
+        else:
+            m = Variables(range(n))
+        variables_of = (lambda x: list(x)) if cls == 'vars' else (lambda x: list(x.variables))
+        try:
+            if route == 'copy':
+                cp = m.copy() if hasattr(m, 'copy') else copy.deepcopy(m)
+            elif route == 'copy.copy':
+                # copy.copy only where the class defines __copy__ (elsewhere it is Python's shallow copy, which shares by design)
+                cp = copy.copy(m) if hasattr(type(m), '__copy__') else (m.copy() if hasattr(m, 'copy') else copy.deepcopy(m))
+            elif route == 'deepcopy':
+                cp = copy.deepcopy(m) if cls != 'dqm' else m.copy()
+            elif route == 'pickle':
+                cp = pickle.loads(pickle.dumps(m)) if cls in ('bqm64', 'bqm32', 'bqmobj', 'vars') else copy.deepcopy(m) if cls != 'dqm' else m.copy()
+            elif route == 'ctor':
+                cp = (dimod.BinaryQuadraticModel(m) if cls.startswith('bqm') else Variables(m) if cls == 'vars'
+                      else dimod.QuadraticModel.from_bqm(dimod.BinaryQuadraticModel({i: 1.0 for i in range(n)}, {}, 0.0, 'BINARY')) if cls == 'qm'
+                      else copy.deepcopy(m) if cls != 'dqm' else m.copy())
+            else:
+                cp = (m.relabel_variables({}, inplace=False) if cls in ('bqm64', 'bqm32', 'bqmobj', 'qm', 'dqm')
+                      else copy.deepcopy(m) if cls != 'vars' else m.copy())
+        except TypeError as e:
+            return {"coq": None, "py_fail": None, "features": dict(feats, not_offered=str(e)[:40]), "nontrivial": False}
+        if variables_of(cp) != list(range(n)):
+            fail = f"copy ({route}) of a range-labelled {cls} shows {variables_of(cp)!r}"
+        # both sides acquire labels that are not their own index, in either order
+        a_map = {rng.randrange(n): 'a'}
+        b_idx = rng.randrange(n)
+        first = rng.random() < 0.5
+
+        def grow(x, mapping, new):
+            if cls == 'vars':
+                x._relabel(mapping)
+                x._append(new)
+            elif cls == 'dqm':
+                x.relabel_variables(mapping, inplace=True)
+                x.add_variable(2, new)
+            elif cls == 'cqm':
+                x.relabel_variables(mapping, inplace=True)
+                x.add_variable('BINARY', new)
+            elif cls == 'qm':
+                x.relabel_variables(mapping, inplace=True)
+                x.add_variable('BINARY', new)
+            else:
+                x.relabel_variables(mapping, inplace=True)
+                x.add_variable(new)
+        want_m = [a_map.get(i, i) for i in range(n)] + ['z']
+        want_c = [('b' if i == b_idx else i) for i in range(n)] + ['y']
+        for side in ((0, 1) if first else (1, 0)):
+            if side == 0:
+                grow(m, a_map, 'z')
+            else:
+                grow(cp, {b_idx: 'b'}, 'y')
+        # (compared as sets: the dict back-end moves a relabelled variable to the end of its order)
+        key = lambda ls: sorted(map(repr, ls))
+        if key(variables_of(m)) != key(want_m) or key(variables_of(cp)) != key(want_c):
+            fail = fail or (f"after a copy ({route}) of a range-labelled {cls} and independent relabel / add_variable calls the original lists "
+                            f"{variables_of(m)!r} (expected {want_m!r}) and the copy {variables_of(cp)!r} (expected {want_c!r})")
+        return {"coq": None, "py_fail": fail, "features": feats, "nontrivial": True}
+    # box
+    vt = rng.choice(['SPIN', 'BINARY'])
+    dt = rng.choice([np.float64, np.float32, object])
+    m = dimod.BinaryQuadraticModel({'a': 1.0, 'b': -2.0, 'c': 0.5}, {('a', 'b'): 0.5, ('b', 'c'): -1.0}, 1.5, vt, dtype=dt)
+    box = rng.choice([lambda: {"m": m, "s": m.spin, "b": m.binary}, lambda: [m.spin, m, m.binary], lambda: (m.binary, m.spin, m, m)])()
+    route = rng.choice(['deepcopy', 'pickle'])
+    feats["route"] = route
+    snap = (m.vartype, dict(m.linear), dict(m.quadratic), m.offset)
+    box2 = copy.deepcopy(box) if route == 'deepcopy' else pickle.loads(pickle.dumps(box))
+    olds = list(box.values()) if isinstance(box, dict) else list(box)
+    news = list(box2.values()) if isinstance(box2, dict) else list(box2)
+    for o, nw in zip(olds, news):
+        if nw.vartype is not o.vartype or not nw.is_equal(o):
+            fail = f"one {route} over a container holding a model and its views: a {o.vartype.name} entry came back as {nw.vartype.name} {dict(nw.linear)}"
+    for nw in news:
+        nw.add_linear('a', 3.0)           # editing what came back must not reach the originals
+    if (m.vartype, dict(m.linear), dict(m.quadratic), m.offset) != snap:
+        fail = fail or f"editing the {route} of a container changed the original model"
+    return {"coq": None, "py_fail": fail, "features": feats, "nontrivial": True}
+
+
 def run_case(c):
+    if c["kind"] == "direct":
+        return run_direct(c)
     if c["kind"] == "ssalias":
         import w_c14
         evs, fail, feats, nt = w_c14.run_alias_events(c)
